@@ -486,7 +486,16 @@ func GenStream(d D, o StreamOpts) (*fitmodel.Stream, *GenInfo) {
 			def := fitmodel.Rec{IsDef: true, Local: byte(local), Global: g}
 			def.BigEndian = o.BigEndian && d.Chance(40, "be")
 			mi := tab.Msgs[g]
-			if known && mi != nil {
+			sameLayout := false
+			if prev := slots[local]; prev != nil && prev.Global == g && o.BigEndian && o.Redefine && d.Int(0, 3, "samelayout") == 0 {
+				// redefinition that changes nothing but the byte order
+				def.BigEndian = !prev.BigEndian
+				def.Fields = append([]fitmodel.FieldDef(nil), prev.Fields...)
+				def.HasDev = prev.HasDev
+				def.Dev = append([]fitmodel.DevFieldDef(nil), prev.Dev...)
+				info.Labels["redefinition-byte-order-only"]++
+				sameLayout = true
+			} else if known && mi != nil {
 				nums := prof.FieldNums(g)
 				var cand []*fitmodel.FieldInfo
 				for _, n := range nums {
@@ -563,7 +572,7 @@ func GenStream(d D, o StreamOpts) (*fitmodel.Stream, *GenInfo) {
 					def.Fields = append(def.Fields, drawUnknownFieldDef(d, n))
 				}
 			}
-			if o.DevFields && d.Chance(15, "dev") {
+			if !sameLayout && o.DevFields && d.Chance(15, "dev") {
 				def.HasDev = true
 				for k := d.Int(0, 3, "ndev"); k > 0; k-- {
 					def.Dev = append(def.Dev, fitmodel.DevFieldDef{Num: d.Byte("dn"), Size: byte(d.Int(0, 9, "ds")), Idx: d.Byte("di")})
